@@ -1,18 +1,18 @@
-\* C41 quick: legacy density resolution, all (deep context, a, b, d) over sparse ratio tips
+\* C41 quick: legacy density resolution, all (deep context, a, b, d) over sparse ratio tips without VRF output (chains of near ties s, s+1, s+2)
 CONSTANT MaxBN = 1
-CONSTANT MaxVRF = 0
+CONSTANT MaxVRF = -1
 CONSTANT MaxSlot = 1
 CONSTANT ForkSlots = {1}
 CONSTANT Windows = {0}
 CONSTANT DepthSet = "deep"
 CONSTANT TrimShallow = TRUE
 CONSTANT Arity = 3
-CONSTANT SampleMod = 11
+CONSTANT SampleMod = 5
 CONSTANT TipKind = "ratio"
 CONSTANT RBlocks = {1, 2}
 CONSTANT SpanBases = {1000000}
 CONSTANT SpanMults = {1, 2}
-CONSTANT SpanOffsets = {0, 1}
+CONSTANT SpanOffsets = {0, 1, 2}
 CONSTANT ResRoot = 31623
 INIT Init
 NEXT Next
